@@ -58,6 +58,7 @@ type Decl struct {
 	Group    []Decl   `json:"group,omitempty"`
 	Value    string   `json:"value,omitempty"`
 	Text     string   `json:"text,omitempty"`
+	AsVar    bool     `json:"asvar,omitempty"` // kind func: written as `var name = func() { ... }`
 }
 
 type GoFile struct {
@@ -229,6 +230,13 @@ func (d *Decl) Source(b *bytes.Buffer) {
 		}
 		b.WriteString(")\n")
 	case "func":
+		if d.AsVar {
+			// a function literal that initialises a package-level variable: its body is no FuncDecl
+			fmt.Fprintf(b, "var %s = func() {\n", d.Name)
+			d.locals(b)
+			b.WriteString("}\n")
+			break
+		}
 		fmt.Fprintf(b, "func %s() {\n", d.Name)
 		d.locals(b)
 		b.WriteString("}\n")
